@@ -157,6 +157,10 @@ func VX_C17_undeclared() {
 	for _, cmp := range []string{"=", "!=", "<", ">="} {
 		r := g.Filter(Filter{Column: "e", Comparator: cmp, Arg: bad})
 		vx.Check(r.Err != nil, "filter against an undeclared constant is an error")
+		r2 := g.Filter(And(Filter{Column: "e", Comparator: "isnull"}, Filter{Column: "e", Comparator: "isnotnull"}, Filter{Column: "e", Comparator: cmp, Arg: bad}))
+		vx.Check(r2.Err != nil, "also as a later member of an And whose earlier members leave no rows")
+		r3 := g.Filter(Or(Filter{Column: "e", Comparator: "isnull"}, Filter{Column: "e", Comparator: "isnotnull"}, Filter{Column: "e", Comparator: cmp, Arg: bad}))
+		vx.Check(r3.Err != nil, "also as a later member of an Or whose earlier members select every row")
 	}
 	vx.Reach("end")
 }
@@ -267,5 +271,20 @@ func VX_C17_csv_declared() {
 		}
 	}
 	vx.Check(len(vals) == 1 && len(vals["e"]) == 3, "the caller's map is not modified")
+	// an empty field (an undeclared value unless EmptyNull is set) in the first rows of the column
+	h := ReadCSV(strings.NewReader("e,x\n,1\nb,2\n"), typ, csv.EnumValues(vals))
+	vx.Check(h.Err != nil, "an empty leading cell is not a declared value")
+	h2 := ReadCSV(strings.NewReader("e,x\n,1\n,2\nb,3\n"+c+",4\n"), typ, csv.EnumValues(vals), csv.EmptyNull(true))
+	vx.Check((h2.Err == nil) == declared, "with EmptyNull leading empty cells are null")
+	if h2.Err == nil {
+		v := h2.MustEnumView("e")
+		vx.Check(v.ItemAt(0) == nil && v.ItemAt(1) == nil && v.ItemAt(2) != nil && *v.ItemAt(2) == "b" && v.ItemAt(3) != nil && *v.ItemAt(3) == c, "cells after leading nulls keep their values")
+	}
+	d := ReadCSV(strings.NewReader("e,x\n,1\n"+c+",2\n,3\n"+c+",4\n"), typ) // derived values, empty string is a value
+	vx.Check(d.Err == nil, "derived enum with empty strings")
+	if d.Err == nil {
+		v := d.MustEnumView("e")
+		vx.Check(v.ItemAt(0) != nil && *v.ItemAt(0) == "" && v.ItemAt(1) != nil && *v.ItemAt(1) == c && v.ItemAt(2) != nil && *v.ItemAt(2) == "" && v.ItemAt(3) != nil && *v.ItemAt(3) == c, "derived enum: every cell keeps its value")
+	}
 	vx.Reach("end")
 }
